@@ -14,12 +14,12 @@ attached (its parent pointer is None and the code at the pinned commit itself fa
 import random
 import zlib
 
-PLAIN, HISTORY, DETOUR, FILL, GHOST = 0, 1, 2, 3, 4
+PLAIN, HISTORY, DETOUR, FILL, GHOST, LISTFILL = 0, 1, 2, 3, 4, 5
 GHOST_NAMES = ("__ghost__", "__ghost_child__")
 
 
 def mode_of(m):
-    """deterministic choice of the way a spec is built: a third plain, a sixth each history, detour, fill and ghost.
+    """deterministic choice of the way a spec is built: two sevenths plain, a seventh each history, ghost, detour, fill, list-fill.
     (iterative walk, bounded: deep chains are specs too)"""
     acc, stack, seen = [], [m["root"]], 0
     while stack and seen < 300:
@@ -38,7 +38,7 @@ def mode_of(m):
                 acc.append(n[0])
                 stack.extend((n[1], n[2]))
     h = zlib.crc32(repr(acc).encode("utf8", "surrogatepass"))
-    return (PLAIN, HISTORY, GHOST, DETOUR, FILL, PLAIN)[h % 6], h
+    return (PLAIN, HISTORY, GHOST, DETOUR, FILL, PLAIN, LISTFILL)[h % 7], h
 
 
 def _quiet(fn, *a):
